@@ -5,14 +5,15 @@ package gosym
 
 import (
 	"fmt"
-	"os/exec"
 	"go/types"
 	"os"
+	"os/exec"
 	"path/filepath"
 	"runtime"
 	"runtime/debug"
 	"sort"
 	"strings"
+	"sync/atomic"
 	"time"
 
 	"golang.org/x/tools/go/packages"
@@ -221,14 +222,14 @@ func (p *Program) NewInterp() (*Interp, error) {
 	cc := *p.cfg
 	cfg := &cc
 	in := &Interp{
-		prog:     p.Prog,
-		globals:  make(map[*ssa.Global]*value),
-		fninfo:   make(map[*ssa.Function]*fnInfo),
-		st:       NewStore(),
-		cfg:      cfg,
-		env:      newEnv(),
-		maxSteps: cfg.MaxSteps * 20, // generous during initialisation
-		trace:    cfg.Trace,
+		prog:      p.Prog,
+		globals:   make(map[*ssa.Global]*value),
+		fninfo:    make(map[*ssa.Function]*fnInfo),
+		st:        NewStore(),
+		cfg:       cfg,
+		env:       newEnv(),
+		maxSteps:  cfg.MaxSteps * 20, // generous during initialisation
+		trace:     cfg.Trace,
 		panicSeen: map[string]bool{},
 	}
 	in.Stats.Funcs = map[string]bool{}
@@ -387,6 +388,18 @@ func (in *Interp) RunHarness(fn *ssa.Function, prefix []int, prefixArity []int) 
 		in.onceCache = nil
 	}()
 	for {
+		// a cell that has already produced several violations is not explored
+		// further: the check is failing, and a change that makes input bytes
+		// flow into symbol names can multiply the paths of a cell a thousandfold
+		if in.cfg.DiscoverDepth == 0 && len(res.Violations) >= 5 {
+			res.TruncatedAt = res.Paths
+			break
+		}
+		// the whole check has already found plenty of violations: stop exploring
+		if in.Stop != nil && atomic.LoadInt32(in.Stop) != 0 {
+			res.TruncatedAt = res.Paths
+			break
+		}
 		if res.Paths >= in.cfg.MaxPaths {
 			res.Inconclusive = append(res.Inconclusive, fmt.Sprintf("path budget of %d exhausted", in.cfg.MaxPaths))
 			res.TruncatedAt = res.Paths
